@@ -631,6 +631,7 @@ static void describe_abort(char *buf, size_t n)
         if (getenv("VERIF_DEV_TRACE")) fprintf(stderr, "[dev] state at abort:%s\n", st);
         size_t l = strlen(buf);
         char *tg = strstr(st, " [device-memory-full-of-dirty-copies");
+        if (!tg) tg = strstr(st, " [lru-leak");
         if (tg && l + 1 < n) snprintf(buf + l, n - l, "%s", tg);
     }
 }
